@@ -511,12 +511,12 @@ class ExecMixin:
                 n, el = self.iter_domain(itv, rec, s.iter)
                 i = fresh_const('rit', z3.IntSort())
                 rec.pc.append(z3.And(0 <= i, i < n))
-                rec.env['it%s' % k] = SV(INT, i)
+                rec.env[('it%s' if isinstance(k, int) else 'it_%s') % k] = SV(INT, i)
                 self.bind_target(s.target, el(i, rec), rec)
                 body_in = [rec]
             else:
                 body_in = []
-                rec.env['it%s' % k] = SV(INT, fresh_const('rit', z3.IntSort()))
+                rec.env[('it%s' if isinstance(k, int) else 'it_%s') % k] = SV(INT, fresh_const('rit', z3.IntSort()))
                 for c, st1 in self.ev_or_raise(s.test, rec):
                     if not isinstance(c, Outcome):
                         body_in.append(st1)
@@ -594,7 +594,7 @@ class ExecMixin:
         """classic loop cutting:  assert I; havoc; assume I (& cond); body; assert I (& variant)"""
         tag = 'L%s' % k
         is_for = isinstance(s, ast.For)
-        itname = 'it%s' % k
+        itname = ('it%s' if isinstance(k, int) else 'it_%s') % k
         if is_for:
             n, el = self.iter_domain(itv, st, s.iter)
         written = self.written_by(s, st, k, itv)
